@@ -127,13 +127,21 @@ func runK8s(c *rig.Ctx, cs Case, m mode) int {
 			want = append(want, hx)
 		}
 	}
-	if rig.Canon(want) != rig.Canon(loaded) {
-		fail("judge", "c13.k8s-load", fmt.Sprintf("store of shard %d/%d loaded upstreams %q, its own are %q", shard, n, unhexAll(loaded), unhexAll(want)), loaded, want)
+	// (a store that loads less, or refuses more, than its own shard is stricter than the property asks: a difference
+	// from the model, not a violation)
+	own := map[string]bool{}
+	for _, hx := range want {
+		own[hx] = true
+	}
+	for _, hx := range loaded {
+		if !own[hx] {
+			fail("judge", "c13.k8s-load", fmt.Sprintf("store of shard %d/%d loaded upstreams %q, its own are %q", shard, n, unhexAll(loaded), unhexAll(want)), loaded, want)
+			break
+		}
 	}
 	for j, hx := range cs.Saves {
-		own := implShardInt(rig.UnHex(hx), n) == shard
-		if j < len(saves) && ((own && saves[j] != "saved") || (!own && saves[j] != "refused")) {
-			fail("judge", "c13.k8s-save", fmt.Sprintf("store of shard %d/%d: Save of a condition of upstream %q (own shard: %v) -> %s", shard, n, rig.UnHex(hx), own, saves[j]), saves[j], nil)
+		if j < len(saves) && implShardInt(rig.UnHex(hx), n) != shard && saves[j] == "saved" {
+			fail("judge", "c13.k8s-save", fmt.Sprintf("store of shard %d/%d: Save of a condition of upstream %q (another shard's) -> %s", shard, n, rig.UnHex(hx), saves[j]), saves[j], nil)
 		}
 	}
 	var mod struct {
